@@ -299,9 +299,8 @@ def leaf_valid(key, v, env, mod) -> bool:
 
 
 class Validity:
-    """py_valid with the options of the Coq definition (Model/CoreValid.v `vgen`):
-       strict_tuple   fixed tuples have exactly the annotated arity (valid) / may stop early (stable)
-       total          a total TypedDict has all its keys (NOT part of the Coq definition)
+    """independent reading of Model/CoreValid.v `valid`: exact class at every position, fixed tuples of exactly
+       the annotated arity, TypedDict instances with declared keys only and every required key present.
        on_leaf        callback(key, v, ok) for every leaf position visited (never short-circuited)
        default_ok     a class field holding (a value equal to) its declared default counts as valid"""
 
@@ -376,7 +375,7 @@ class Validity:
 def defaults_conform(env, mod) -> list:
     """[(class, field, default source)] for every default that is not a valid instance of its annotation"""
     bad = []
-    val = Validity(env, mod, strict_tuple=False, total=False)
+    val = Validity(env, mod)
     for n, d in env["defs"].items():
         if d[0] != "class":
             continue
